@@ -50,6 +50,8 @@ class Assembly:
         self.srv_cert = CertFiles("ec", "localhost")
         # c2 is a look-alike of c1: same subject/issuer name and serial number (public fields), different key
         self.clients = {"c1": CertFiles("ec", "client", serial=424242, tag="one"), "c2": CertFiles("ec", "client", serial=424242, tag="two")}
+        # the same look-alike, sending the ALLOWED user's (public) certificate after its own in the TLS Certificate message
+        self.clients["c2+c1"] = CertFiles("ec", "client", serial=424242, tag="two", extra_chain=[self.clients["c1"]])
         fp1 = "sha256:" + hashlib.sha256(self.clients["c1"].der).hexdigest()
         toml = """
 [server]
@@ -116,6 +118,10 @@ require_cert = true
         proto = self.factory()
         tr = FakeTransport(self.loop, proto, peername=(ADDR[ip], 50000), tls=False, auto_lost=True)
         self.loop.call(proto.connection_made, tr)
+        if cert == "c2":
+            self.nreq = getattr(self, "nreq", 0) + 1
+            if self.nreq % 2:
+                cert = "c2+c1"                   # what is presented is still c2: the leaf, for whose key possession was proven
         cl = MemTLSClient(client_cert=self.clients[cert] if cert != "none" else None)
         cl.step()
         moved = 0
